@@ -80,6 +80,7 @@ def shards(tier):
     out = [{"part": "trees", "n": n, "lo": lo, "hi": min(lo + step, total)} for lo in range(0, total, step)]
     out.append({"part": "fixtures"})
     out += [{"part": "wide", "i": i} for i in range(len(WIDE_DOCS))]
+    out += [{"part": "dup", "i": i} for i in range(len(DUP_DOCS))]
     sk = skeletons(7 if tier == "quick" else 8)
     out += [{"part": "skeleton", "lo": lo, "hi": min(lo + 4, len(sk)), "max": 7 if tier == "quick" else 8,
              "full": 6 if tier == "quick" else 7, "cap": 4000 if tier == "quick" else 20000}
@@ -93,6 +94,11 @@ WIDE_DOCS = [
     {"a": {"p": 1, "q": 2, "r": 3}, "b": [0]}, {"a": [1, 2], "b": [3], "c": [4, [5]]},
 ]
 WIDE_QUERIES = ["$.*", "$[*]", "$[?@]", "$[?@ != 2]", "$..*", "$[*][*]", "$.*.*", "$..[?@]", "$[*, *]", "$[?@, *]"]
+# the same node reached twice: every occurrence shuffles independently
+DUP_DOCS = [{"a": {"x": 1, "y": 2}}, [{"x": 1, "y": 2}], {"a": {"x": 1, "y": 2}, "b": {"z": 3, "w": 4}},
+            {"a": [{"p": 1, "q": 2}]}]
+DUP_QUERIES = ["$['a','a'][*]", "$[0,0][*]", "$[*,*][*]", "$['a','a'][?@]", "$[0,-1].*", "$['a','b','a'].*",
+               "$..[*][*]", "$['a','a'][*][*]", "$.a[0,0].*", "$['a','a']..*"]
 _SK = {}
 
 
@@ -243,6 +249,12 @@ def run_shard(desc):
                     for v in check_input(q, doc, sh, flag=flag):
                         sh.violation(v)
         sh.sample({"query": WIDE_QUERIES[0], "doc": impl.jsonable(doc)}, limit=1)
+    elif desc["part"] == "dup":
+        doc = DUP_DOCS[desc["i"]]
+        for q in DUP_QUERIES:
+            for v in check_input(q, doc, sh, cap=100000):
+                sh.violation(v)
+        sh.sample({"query": DUP_QUERIES[0], "doc": impl.jsonable(doc)}, limit=1)
     elif desc["part"] == "skeleton":
         docs = skeletons(desc["max"])[desc["lo"]:desc["hi"]]
 
